@@ -211,7 +211,21 @@ fn powf_value(name: &'static str, x: [f64; 2], y: [f64; 2], r: [f64; 2], args: &
     }, l)
 }
 
+pub fn hist_judge(c: &crate::hist::HCall, l: Option<&mut Local>) -> Verdict {
+    use crate::api::Op;
+    match c.as_op() {
+        Some(Op::exp) => judge1(0, c.a, l),
+        Some(Op::exp2) => judge1(1, c.a, l),
+        Some(Op::exp_m1) => judge1(2, c.a, l),
+        Some(Op::powf) => judge_powf(c.a, c.b, l),
+        _ => Verdict::Skip,
+    }
+}
+
 pub fn replay(call: &str, _clause: &str, args: &[u64]) -> Verdict {
+    if call == "hist" {
+        return crate::hist::replay(args, &hist_judge);
+    }
     let x = [f64::from_bits(args[0]), f64::from_bits(args[1])];
     match call {
         "exp" => judge1(0, x, None),
@@ -461,5 +475,18 @@ pub fn run(r: &mut Runner) {
                 rec.record(l, (9u64 << 55) + 2 * i as u64 + 1, v);
             }
         });
+    }
+    {
+        use crate::api::Op;
+        use crate::hist::HCall;
+        let mut groups = crate::hist::unary_groups(&[Op::exp, Op::exp_m1], &[[1.25, 1e-17], [-3.75, 2e-16], [0.01, 0.0], [100.5, -1e-15]], [2.0, 0.0]);
+        groups.extend(crate::hist::unary_groups(&[Op::exp2], &[[10.5, 1e-16], [-3.25, 0.0]], [2.0, 0.0]));
+        crate::hist::explore(r, "histories: exp/exp2/exp_m1", &groups, 3, &hist_judge, 14u64 << 55);
+        // powers: two bases, two exponents, sequences up to length 4 (an LRU of two entries needs A, B, A, A)
+        let mut pg: Vec<Vec<HCall>> = vec![];
+        for (a, b) in [([3.0, 0.0], [7.0, 0.0]), ([1.5, 1e-17], [1.5, -1e-17]), ([2.0, 0.0], [-2.0, 0.0])] {
+            pg.push(vec![HCall::op(Op::powf, a, [2.5, 0.0]), HCall::op(Op::powf, b, [2.5, 0.0]), HCall::op(Op::powf, a, [3.0, 0.0]), HCall::op(Op::powf, b, [-3.0, 1e-16])]);
+        }
+        crate::hist::explore(r, "histories: powf (two bases, length <= 4)", &pg, 4, &hist_judge, 15u64 << 55);
     }
 }
